@@ -318,6 +318,24 @@ func init() {
 		}
 		return Tuple{c, w.ext["dialerr"]}
 	})
+	reg("verifnd.LogLeaks", func(w *World, t *Thread, fr *frame, fn *ssa.Function, args []Value) Value {
+		needle := w.concStr(fr, args[0], "needle")
+		leak := false
+		if v, ok := w.ext["logs"]; ok {
+			for _, ev := range v.([]LogEvent) {
+				if cs, ok := ev.text.Concrete(); ok {
+					if strings.Contains(cs, needle) {
+						leak = true
+					}
+				} else if ev.text.taint != 0 {
+					leak = true
+				} else {
+					w.res.Cuts["log line with unknown content (formatted from symbolic operands) not inspected"]++
+				}
+			}
+		}
+		return w.tt.Bool(leak)
+	})
 	reg("verifnd.Thorough", func(w *World, t *Thread, fr *frame, fn *ssa.Function, args []Value) Value {
 		return w.tt.Bool(currentTier == "thorough")
 	})
